@@ -475,7 +475,12 @@ def run_check(engine, prop, tier, seed, jobs, cases=None, budget_s=None, quiet=F
         "violations": len(reported),
         "known_findings_seen": len(known_lines),
     }
-    extra = engine.evidence_extra(prop, stats) if hasattr(engine, "evidence_extra") else {}
+    extra = {}
+    if hasattr(engine, "evidence_extra"):
+        try:
+            extra = engine.evidence_extra(prop, stats, shapes)
+        except TypeError:
+            extra = engine.evidence_extra(prop, stats)
     ev["coverage"].update(extra)
     os.makedirs(EVIDENCE, exist_ok=True)
     with open(os.path.join(EVIDENCE, prop + ".json"), "w") as f:
